@@ -1,6 +1,6 @@
 #!/usr/bin/env bash
 # ./fuzz.sh build            build the libFuzzer targets (nightly, ASan, debug assertions), offline
-# ./fuzz.sh run <Cxx> [runs] coverage-guided campaign for C05 / C08 / C17 (thorough tier)
+# ./fuzz.sh run <Cxx> [runs] coverage-guided campaign for C02 / C05 / C08 / C09 / C11 / C17 (thorough tier)
 #
 # run: exit 0 = no crash, 1 = crash (prints "VIOLATION property=<id> replay=<path>"),
 #      2 = fuzzing unavailable / no verdict. Appends a "fuzz" object to evidence/<id>.json.
@@ -45,7 +45,7 @@ build)
 run)
     id="${2:?property id}"
     t="$(echo "$id" | tr 'A-Z' 'a-z')"
-    case "$t" in c05 | c08 | c17) ;; *)
+    case "$t" in c02 | c05 | c08 | c09 | c11 | c17) ;; *)
         echo "fuzz.sh: no fuzz target for $id" >&2
         exit 2
         ;;
@@ -53,6 +53,9 @@ run)
     case "$t" in
     c08) defruns=5000000; maxlen=2048 ;;
     c05) defruns=2000000; maxlen=4096 ;;
+    c02) defruns=2000000; maxlen=64 ;;
+    c09) defruns=5000000; maxlen=64 ;;
+    c11) defruns=300000; maxlen=48 ;;
     *) defruns=300000; maxlen=600 ;;
     esac
     runs="${3:-${VERIF_FUZZ_RUNS:-$defruns}}"
